@@ -171,7 +171,19 @@ def check_remaining_len_taint(out, facts):
                     uses = True
         if uses:
             users.append(f)
-    for f in users:
+    # a private helper that compares remaining_len() with one of its parameters is judged at its call sites (the
+    # evaluator inlines it there, with the actual argument in place of the parameter): such helpers are collected in
+    # the first pass and their callers analysed in a second one
+    refs = referrers(facts)
+    private_users = {f['path'] for f in users if f['kind'] == 'Fn' and not f.get('trait') and f.get('vis') != 'Public'}
+    deferred_helpers = set()
+    caller_only = set()
+    users = list(users)
+    done_callers = set()
+    qi = 0
+    while qi < len(users):
+        f = users[qi]
+        qi += 1
         key = 'remaining_len use in %s [%s]' % (fkey(f), facts.cfg)
         t, v, ev = wire.infer_decoder_fn(facts, f)
         ops = sym.has_opaque(t)
@@ -196,7 +208,7 @@ def check_remaining_len_taint(out, facts):
                 return all(pure_reject(x) for x in term[1])
             return False
 
-        def visit(term):
+        def visit(term, inside=None):
             k = term[0]
             if k == 'alt':
                 cond = term[1]
@@ -210,22 +222,31 @@ def check_remaining_len_taint(out, facts):
                     c = strip(cond[1])
                     if isinstance(c, tuple) and c[0] == 'bin' and c[1] in ('Lt', 'Gt', 'Le', 'Ge'):
                         other = c[3] if tainted(c[2]) else c[2]
-                        if not _exact_byte_need(other, f):
+                        po = strip(other)
+                        while isinstance(po, tuple) and po and po[0] in ('mutvar', 'unwrapped', 'tried'):
+                            po = strip(po[3] if po[0] == 'mutvar' else po[1])
+                        deferred = bool(f['path'] in private_users and refs.get(f['path']) and isinstance(po, tuple) and po and po[0] == 'param'
+                                        and po[1] not in ('input', 'self'))
+                        if deferred:
+                            deferred_helpers.add(f['path'])
+                        # in a caller that is analysed only because a helper deferred its comparison, judge that comparison only
+                        skip = f['path'] in caller_only and inside not in {tname(h) for h in deferred_helpers}
+                        if not deferred and not skip and not _exact_byte_need(other, f):
                             bad.append('input is rejected when remaining_len() is below %s, which is not the exact byte length about to be read '
                                        '(count * size_of::<T>() with T: ToMutByteSlice): valid encodings can be shorter' % sym.vstr(other)[:80])
                 for _, x in term[2]:
-                    visit(x)
+                    visit(x, inside)
             elif k == 'cat':
                 for x in term[1]:
-                    visit(x)
+                    visit(x, inside)
             elif k == 'star':
                 if tainted(term[1]):
                     bad.append('loop bound depends on remaining_len()')
-                visit(term[2])
+                visit(term[2], inside)
             elif k in ('HELPER',):
-                visit(term[2])
+                visit(term[2], term[1])
             elif k == 'ONOK':
-                visit(term[1])
+                visit(term[1], inside)
             elif k in ('HOOK', 'read', 'RET', 'byte', 'write'):
                 if tainted(term[1]):
                     bad.append('%s argument depends on remaining_len()' % k)
@@ -243,6 +264,14 @@ def check_remaining_len_taint(out, facts):
         if tainted(v):
             bad.append('returned value depends on remaining_len()')
         out.ob('R08.3', key, not bad, '; '.join(bad), f['loc'], sample={'term': sym.tstr(t)[:300]})
+        # callers of a helper whose comparison was deferred to its call sites
+        for hp in sorted(deferred_helpers - done_callers):
+            done_callers.add(hp)
+            for r in sorted(refs.get(hp, ())):
+                g = facts.by_path.get(r)
+                if g is not None and g not in users and g.get('thir'):
+                    users.append(g)
+                    caller_only.add(g['path'])
     out.floor('R08.3', 'functions using remaining_len outside Input impls [%s]' % facts.cfg, len(users), 1)
 
 
